@@ -160,13 +160,14 @@ def run(ctx, chk):
         chk.analysed['call_sites'] += len(ia)
     # ---------------------------------------------------------------- W3 clients evaluate their own snapshot
     ws = wrappers_model.load(fb, chk, 'C01.W3')
+    now_paths = {b.path for b in fb.find(crate=common.SHM, name='now', impl_self='ClockErrorBound')}     # (whatever module the impl sits in)
     for name, w in ws.items():
         n = 0
         for r in w.rows:
             p = r['path']
             calls = [(k, ef) for k, ef in enumerate(p.effects) if ef['kind'] == 'call' and not ef['tracing'] and ef['callee'].startswith(common.SHM)]
             snaps = [(k, ef) for k, ef in calls if ef['callee'].endswith('::snapshot')]
-            nows = [(k, ef) for k, ef in calls if ef['callee'].endswith('ClockErrorBound::now')]
+            nows = [(k, ef) for k, ef in calls if ef['callee'] in now_paths or ef['callee'].endswith('ClockErrorBound::now')]
             for k, ef in nows:
                 n += 1
                 arg = ef['args'][0]
